@@ -47,11 +47,20 @@ type scen struct {
 	// Broken: the first page also embeds resources whose transfer breaks after the headers (reset; a timeout
 	// that every further read repeats): responses that are complete for the WARC writer and fail in ProcessBody
 	Broken bool `json:"broken,omitempty"`
-	P      int  `json:"p"`
+	// Anchors: the first page also has five anchors and --max-hops is 1: the postprocessor feeds the outlinks
+	// downstream one by one, more of them than the finisher's input holds
+	Anchors bool `json:"anchors,omitempty"`
+	P       int  `json:"p"`
 }
 
 func (s *scen) name() string {
 	o := s.Opt
+	if s.Anchors {
+		return fmt.Sprintf("seeds=%d w%d a%d paused=%v page-with-anchors max-hops=1", s.Seeds, o.Workers, o.MaxConcurrentAssets, s.Paused)
+	}
+	if o.SlowSourceMs > 0 {
+		return fmt.Sprintf("seeds=%d w%d a%d slow-source=%dms", s.Seeds, o.Workers, o.MaxConcurrentAssets, o.SlowSourceMs)
+	}
 	return fmt.Sprintf("seeds=%d w%d a%d limiter=%v proxy=%v async=%v seencheck=%s paused=%v%s", s.Seeds, o.Workers, o.MaxConcurrentAssets, o.RateLimit, o.Proxy, o.AsyncWARC, seenName(o), s.Paused, map[bool]string{true: " disk-full", false: ""}[s.DiskFull]) + map[bool]string{true: " broken-bodies", false: ""}[s.Broken]
 }
 
@@ -70,12 +79,17 @@ type obs struct {
 	stopReturned bool
 	stopStep     int
 	gaugesAtStop [3]uint64
+	inserted     int       // seeds the reactor accepted
+	totals0      [2]uint64 // URLs crawled / seeds finished totals when the execution began (the stats singleton lives on)
 }
 
-func site() world.SiteDef { return siteWith(false) }
+func site() world.SiteDef { return siteWith(false, false) }
 
-func siteWith(broken bool) world.SiteDef {
+func siteWith(broken, anchors bool) world.SiteDef {
 	d := siteBase()
+	if anchors {
+		d.Nodes[0].Links = []string{"/l1", "/l2", "/l3", "/l4", "/l5"}
+	}
 	if broken {
 		d.Nodes[0].Refs = append(d.Nodes[0].Refs, H+"/cut.png", H+"/stall.png")
 		d.Nodes = append(d.Nodes, world.Node{URL: H + "/cut.png", Kind: "cut"}, world.Node{URL: H + "/stall.png", Kind: "stall"})
@@ -84,7 +98,7 @@ func siteWith(broken bool) world.SiteDef {
 }
 
 func siteBase() world.SiteDef {
-	return world.SiteDef{Name: "two pages", Seeds: []string{H + "/p1", H + "/p2"}, Nodes: []world.Node{
+	return world.SiteDef{Name: "two pages", Seeds: []string{H + "/p1", H + "/p2", H + "/q1", H + "/q2"}, Nodes: []world.Node{
 		{URL: H + "/p1", Kind: "html", Refs: []string{H + "/a.png", H + "/flaky.png"}}, {URL: H + "/a.png", Kind: "bin"},
 		{URL: H + "/flaky.png", Kind: "flaky", FailN: 1},
 		{URL: H + "/p2", Kind: "redirect", Location: H + "/p3"}, {URL: H + "/p3", Kind: "html", Refs: []string{H + "/b.png"}}, {URL: H + "/b.png", Kind: "bin"},
@@ -95,14 +109,18 @@ func scenario(s *scen) *vsched.Scenario {
 	var w *world.World
 	var o *obs
 	sc := &vsched.Scenario{Name: s.name()}
-	d := siteWith(s.Broken)
+	d := siteWith(s.Broken, s.Anchors)
 	d.Seeds = d.Seeds[:s.Seeds]
 	sc.Setup = func(x *vsched.Exec) {
 		opt := s.Opt
 		opt.Tmp = os.Getenv("VERIF_TMP")
 		opt.MaxRetry, opt.MaxRedirect = 1, 2
+		if s.Anchors {
+			opt.MaxHops = 1
+		}
 		w = world.New(opt, d.Build())
 		o = &obs{}
+		o.totals0[0], o.totals0[1] = stats.VerifTotals()
 		x.Data = o
 		if s.DiskFull {
 			watchers.VerifC14Reset()
@@ -127,6 +145,9 @@ func scenario(s *scen) *vsched.Scenario {
 				if err := w.Insert(fmt.Sprintf("seed%d", i), u); err != nil {
 					return // frozen or stopping reactor: the source gives up
 				}
+				o.mu.Lock()
+				o.inserted++
+				o.mu.Unlock()
 			}
 		}()
 		if s.DiskFull {
@@ -170,6 +191,20 @@ func scenario(s *scen) *vsched.Scenario {
 			}
 			if a, b, c := stats.VerifRoutines(); a != 0 || b != 0 || c != 0 {
 				return fmt.Errorf("gauges-not-zero: worker gauges after stop: preprocessor=%d archiver=%d postprocessor=%d", a, b, c)
+			}
+			// totals equal the number of events that happened: a seed that left the reactor was finished (the only way
+			// out of its state table), a request that reached the transport was a URL crawled
+			urls, seeds := stats.VerifTotals()
+			if left := o.inserted - w.TrackedAtStop; int(seeds-o.totals0[1]) != left {
+				return fmt.Errorf("seeds-finished-total-differs: %d seeds were accepted by the reactor and %d are still tracked after the stop, so %d were finished; the total counted %d", o.inserted, w.TrackedAtStop, left, seeds-o.totals0[1])
+			}
+			// "URLs crawled" counts items fetched, not requests (a retried URL counts once); in this site every URL belongs to one item
+			distinct := map[string]bool{}
+			for _, f := range w.Log {
+				distinct[f.URL] = true
+			}
+			if int(urls-o.totals0[0]) != len(distinct) {
+				return fmt.Errorf("urls-crawled-total-differs: %d URLs were requested, the total counted %d", len(distinct), urls-o.totals0[0])
 			}
 			return nil
 		}
@@ -245,6 +280,12 @@ func scenarios(tier string) []scen {
 	// responses that the writer records and whose body then fails in the archiver
 	out = append(out, scen{Opt: world.Options{Workers: 1, MaxConcurrentAssets: 1}, Seeds: 1, Broken: true, P: P},
 		scen{Opt: world.Options{Workers: 1, MaxConcurrentAssets: 2}, Seeds: 1, Broken: true, P: P})
+	// a page whose outlinks are being fed downstream when the pause and then the stop come
+	for _, paused := range []bool{false, true} {
+		out = append(out, scen{Opt: world.Options{Workers: 1, MaxConcurrentAssets: 1}, Seeds: 1, Paused: paused, Anchors: true, P: P + 1})
+	}
+	// a source that is slow to take finished seeds: the finisher blocks on its hand-over while the stop comes
+	out = append(out, scen{Opt: world.Options{Workers: 1, MaxConcurrentAssets: 1, SlowSourceMs: 5000}, Seeds: 4, P: P})
 	// the other configuration dimensions on the one-worker, one-seed instance
 	for _, o := range []world.Options{
 		{Workers: 1, MaxConcurrentAssets: 1, Proxy: true},
